@@ -22,8 +22,10 @@ RULE = (
     "sequence split into jobs differently), schedules built by the dispatcher "
     "from two histories on I, on the copy and on the perturbed instances, a "
     "uniformly delayed copy built with ScheduledOperation(op, start+delta, m), "
-    "all operations and scheduled operations of these, plus None / int / "
-    "tuple. Oracle over all ordered pairs and all equal triples: == is "
+    "all operations and scheduled operations of these, instances built with "
+    "set_operation_attributes=False from the same flat operation sequence "
+    "split in two ways, an instance whose operations were hashed before it "
+    "was built, plus None / int / tuple. Oracle over all ordered pairs and all equal triples: == is "
     "reflexive, symmetric, transitive; True when the strict content "
     "fingerprints are equal (independently built, same content); False when "
     "machines (as sets), durations, job / position, job structure, start time "
@@ -208,6 +210,33 @@ def check_case(case, ctx):
             for job in i.jobs:
                 for o in job[:3]:
                     pool.append((label + "-op", o))
+    # instances built with the public option set_operation_attributes=False
+    # (operation attributes stay at -1): the same flat operation sequence
+    # split into jobs in two ways, plus an identically split copy
+    from job_shop_lib import Operation as _Op
+
+    flat = [(list(ms), dd) for row_m, row_d in zip(inst["machines"], inst["durations"]) for ms, dd in zip(row_m, row_d)]
+    if len(flat) >= 3:
+        def raw(split):
+            ops = [_Op(list(ms), dd) for ms, dd in flat]
+            return JobShopInstance([ops[:split], ops[split:]], set_operation_attributes=False)
+
+        pool.append(("raw-split1", raw(1)))
+        pool.append(("raw-split1-copy", raw(1)))
+        pool.append(("raw-split2", raw(2)))
+    # operations hashed BEFORE they are placed in an instance (e.g. used as
+    # dictionary keys while the jobs are assembled)
+    early_jobs = []
+    for row_m, row_d in zip(inst["machines"], inst["durations"]):
+        job = [_Op(list(ms), dd) for ms, dd in zip(row_m, row_d)]
+        for o in job:
+            hash(o)
+        early_jobs.append(job)
+    early = JobShopInstance(early_jobs, name=inst["name"])
+    pool.append(("I-hashed-early", early))
+    for job in early.jobs:
+        for o in job[:3]:
+            pool.append(("I-hashed-early-op", o))
     pool += [("None", None), ("int", 3), ("tuple", (1, 2))]
     keys = [(strict(o), relaxed(o)) for (_l, o) in pool]
     n = len(pool)
